@@ -12,6 +12,10 @@
 Added after the second and third seeding rounds:
   requirement-skipped-only-by-trail-or-flag  every test between the start of an iteration over requires_clauses and the walk over
                      that solvable's requirements reads only the trail, the explicit flag and the best proposal
+
+Added after the fifth seeding round:
+  candidate-lists / core(verdict)  the best candidate of a direct requirement is given up only when the problem's clauses rule it
+                     out: cache lists are the provider's (seed C08-13), conflict reports do not become permanent assertions (C08-15)
 """
 from common import *
 import q, enc, c05, c07
